@@ -1629,6 +1629,12 @@ impl BytecodeVM {
         let current_arguments = mem::take(&mut self.arguments);
         self.release_arguments(current_arguments);
 
+        // A `return` from inside block scopes (if, loop and try bodies) leaves them open:
+        // pop them and their guards before switching to the caller's saved_env_stack
+        while let Some(saved_env) = self.saved_env_stack.pop() {
+            interp.pop_scope(saved_env);
+        }
+
         // Restore VM state
         self.ip = frame.ip;
         self.chunk = frame.chunk;
